@@ -95,6 +95,7 @@ fn blocks(t: bool) -> Vec<Block> {
         v.push(Block { kind: "sequence", p: 2, kl: 2, n: 6, nx: 4, combos: combos(&am, &aa, false) });
         v.push(Block { kind: "sequence", p: 1, kl: 3, n: 6, nx: 4, combos: combos(&am, &[0, 1, 3], false) });
         v.push(Block { kind: "sequence", p: 2, kl: 3, n: 6, nx: 4, combos: combos(&[2], &[0, 3], false) });
+        v.push(Block { kind: "sequence", p: 1, kl: 2, n: 7, nx: 4, combos: combos(&am, &[0, 3], false) });
     }
     v
 }
@@ -311,6 +312,7 @@ pub fn fit_case(c: &Case) {
     let header = || format!("{} n={} p={} k={} alpha={} map={:?} x={:?} y={:?}", c.family, n, p, k, c.alpha, c.map, x, y);
     // input class used in site keys: magnitude of the (mapped) features
     let xclass = if x.iter().flatten().fold(0.0f64, |m, v| m.max(v.abs())) > 10.0 { "large-features" } else { "small-features" };
+    let aclass = if c.alpha == 0.0 { "alpha=0" } else { "alpha>0" };
     if k < 2 {
         // outside the statement's domain ("at least two classes"); the library must still not hang
         mc::count("single_class_outside_domain");
@@ -324,7 +326,6 @@ pub fn fit_case(c: &Case) {
         Err(pn) => {
             let suffix = if pn.is_overflow_check() { ":overflow-check" } else { "" };
             let class = if pn.msg.contains("Linesearch failed") { "linesearch-gave-up" } else { "other" };
-            let aclass = if c.alpha == 0.0 { "alpha=0" } else { "alpha>0" };
             mc::violation(format!("logreg.fit:panic:{}:{}{}", class, aclass, suffix), format!("{}: {}", header(), pn.brief()));
             mc::describe(|| json!({"op": "LogisticRegression.fit", "x": x, "y": y, "alpha": c.alpha, "panic": pn.brief()}));
             return;
@@ -345,7 +346,7 @@ pub fn fit_case(c: &Case) {
     let libw: Vec<Vec<f64>> = (0..rows).map(|r| (0..p).map(|j| lr.coefficients().get(r, j)).chain(std::iter::once(lr.intercept().get(r, 0))).collect()).collect();
     if libw.iter().flatten().any(|v| !v.is_finite()) {
         mc::violation(
-            format!("logreg.fit:non-finite-parameters:{}:{}", if k == 2 { "binary" } else { "multiclass" }, xclass),
+            format!("logreg.fit:non-finite-parameters:{}:{}:{}", if k == 2 { "binary" } else { "multiclass" }, xclass, aclass),
             format!("{}: returned parameters {:?}", header(), libw),
         );
         mc::describe(|| json!({"op": "LogisticRegression.fit", "x": x, "y": y, "alpha": c.alpha, "parameters": libw}));
@@ -418,7 +419,7 @@ pub fn fit_case(c: &Case) {
         }
         if !(f_final <= f0 * (1.0 + MONO_RTOL)) {
             viols.push((
-                format!("logreg.fit:objective-above-start:{}:{}{}", model, xclass, if dominated { ":scores-dominated-by-a-negative-one" } else { "" }),
+                format!("logreg.fit:objective-above-start:{}:{}:{}{}", model, xclass, aclass, if dominated { ":scores-dominated-by-a-negative-one" } else { "" }),
                 format!("{}: objective {:e} at the returned parameters {:?} exceeds {:e} at the all-zero start", header(), f_final, libw, f0),
             ));
         }
